@@ -52,7 +52,7 @@ out.append("Caught %d of %d confirmed seeds.\n" % (nc, nt))
 out.append("### 8.3 Behaviour-preserving refactors (independent \"maintainer\" sub-agents) — every check must stay at exit 0\n")
 out.append("| Refactor | kind | what it changes | checks not at exit 0 (as evaluated when the refactor came in) |")
 out.append("|---|---|---|---|")
-rn = rb = 0
+rn = rb = rnow = 0
 for d in sorted(glob.glob(os.path.join(here, "refactors", "*"))):
     try:
         m = json.load(open(os.path.join(d, "meta.json")))
@@ -60,14 +60,23 @@ for d in sorted(glob.glob(os.path.join(here, "refactors", "*"))):
     except Exception:
         continue
     rn += 1
-    bad = ev.get("non_zero", {})
-    if bad:
+    try:
+        first = json.load(open(os.path.join(d, "eval_first.json"))).get("non_zero", {})
+    except Exception:
+        first = ev.get("non_zero", {})
+    now = ev.get("non_zero", {})
+    if first:
         rb += 1
-    res = "; ".join("%s exit %d" % (p, r["exit"]) for p, r in sorted(bad.items())) or "none"
+    if now:
+        rnow += 1
+
+    def fmt(bad):
+        return "; ".join("%s exit %d" % (p, r["exit"]) for p, r in sorted(bad.items())) or "none"
+    res = fmt(first) + (" → now: " + fmt(now) if first else "")
     s1 = re.sub(r"\s+", " ", str(m.get("summary", ""))).replace("|", "/")
     out.append("| %s | %s | %s | %s |" % (os.path.basename(d), str(m.get("kind", "")).replace("|", "/")[:40], s1 if len(s1) <= 200 else s1[:199] + "…", res))
 out.append("")
-out.append("%d of %d refactors left every check at exit 0 at first evaluation; the others are discussed in §12.\n" % (rn - rb, rn))
+out.append("%d of %d refactors left every check at exit 0 at first evaluation (exit 1 = false violation, exit 2 = broken check); after the repairs described in §12.1, %d of the %d that did not were re-run with the final rules and %d still do not.\n" % (rn - rb, rn, rb, rb, rnow))
 text = "\n".join(out)
 p = os.path.join(here, "DESIGN.md")
 s = open(p).read()
